@@ -410,6 +410,17 @@ def c20_streams(seed, tier):
             flush()
     for d in range(4):
         lines.append(f"u zero {d}")
+    # extreme magnitudes (f32 squares of these under- or overflow): conversions and truthiness must not go through a squared
+    # length (seeded change T31).  `actuated` is left out: it *is* a comparison of squares, where f32 legitimately differs from
+    # exact arithmetic at these magnitudes.
+    tiny, huge = Fr(1, 2 ** 100), Fr(2 ** 100)
+    ext = [f"1:{q(x)}" for x in (tiny, -tiny, huge)]
+    ext += [f"2:{q(x)},{q(y)}" for x in (0, tiny, -tiny, huge) for y in (0, tiny, -huge) if (x, y) != (0, 0)]
+    ext += [f"3:{q(x)},{q(y)},{q(z)}" for x in (0, tiny) for y in (0, -tiny) for z in (0, tiny, huge) if (x, y, z) != (0, 0, 0)]
+    for v in ext:
+        for d in range(4):
+            lines.append(f"u convert {v} {d}")
+        lines += [f"u asbool {v}", f"u as1 {v}", f"u as2 {v}", f"u as3 {v}"]
     n = 2000 if tier == "quick" else 100000
     for _ in range(n):
         v = rand_value(r)
